@@ -133,6 +133,22 @@ Theorem exec_split_overlap_partial :
 Proof. exact ProofsOverlap.exec_split_overlap_partial. Qed.
 Print Assumptions exec_split_overlap_partial.
 
+Theorem exec_split_overlap_data_partial :
+  forall (sc : schema) (U : universe) (frags : list fragment) (vars : list (bytes * json))
+  (md : mode) (f : nat) (objty : name) (ov : oval) (A B : list selection)
+  (path : list pel) (la lb : list selection),
+  flatten sc frags vars f objty A = FlatOk la ->
+  flatten sc frags vars f objty B = FlatOk lb ->
+  flat_no_oof (flatten sc frags vars f objty (A ++ B)) = true ->
+  overlap_nosubs la lb = true ->
+  overlap_nosubs lb la = true ->
+  overlap_same la lb ->
+  fst (exec_sels sc U frags vars md f objty ov (A ++ B) path) =
+  merge_opt (fst (exec_sels sc U frags vars md f objty ov A path))
+  (fst (exec_sels sc U frags vars md f objty ov B path)).
+Proof. exact ProofsOverlap.exec_split_overlap_data. Qed.
+Print Assumptions exec_split_overlap_data_partial.
+
 
 (* ---- relocation of the response path; subgraph mode == monolithic mode; the object under _entities ---- *)
 Theorem exec_path_shift :
@@ -382,4 +398,32 @@ Theorem federated_two_step :
   flA f1 f2 = mono_hop U sc frags vars P eP af f args dirs path selA selB fM.
 Proof. exact ProofsTwoStep.federated_two_step_main. Qed.
 Print Assumptions federated_two_step.
+
+Theorem federated_two_step_execute_bridge :
+  forall (U : universe) (sc : schema) (frags : list fragment) (vdsM : list vardef)
+  (supM : json) (sc1 : schema) (frags1 : list fragment) (vds1 : list vardef)
+  (sup1 : json) (sc2 : schema) (frags2 : list fragment) (vds2 : list vardef)
+  (sup2 : list (bytes * json)) (root : entity) (af : option name)
+  (f : name) (args : list argument) (dirs : list directive) (nn : bool)
+  (T : name) (ks : list name) (selA selB flA : list selection) (fM f1 f2 : nat),
+  let varsM :=
+  effective_vars (query_op vdsM [SField af f args dirs (selA ++ selB)])
+  (supplied_members supM) in
+  let vars1 :=
+  effective_vars (query_op vds1 [SField af f args dirs (selA ++ key_sels ks)])
+  (supplied_members sup1) in
+  find_entity U (s_query sc) [] = Some root ->
+  s_query sc1 = s_query sc ->
+  two_step U sc1 frags1 vars1 sc2 frags2 vds2 sup2 (s_query sc) root af f args dirs [] nn T ks
+  selA selB flA f1 f2 =
+  mono_hop U sc frags varsM (s_query sc) root af f args dirs [] selA selB fM ->
+  response_of_sres
+  (step2 U sc2 frags2 vds2 sup2 af f [] nn T ks selB flA
+  (sres_of_response
+  (execute f1 sc1 U Sub
+  (query_doc vds1 [SField af f args dirs (selA ++ key_sels ks)] frags1) None sup1))
+  f2) =
+  execute fM sc U Mono (query_doc vdsM [SField af f args dirs (selA ++ selB)] frags) None supM.
+Proof. exact ProofsTwoStep.two_step_execute_bridge. Qed.
+Print Assumptions federated_two_step_execute_bridge.
 
